@@ -58,6 +58,7 @@ type BatchSpec struct {
 	NoDump   bool    `json:"nodump"`
 	Faults   [][]any `json:"faults"`
 	Resend   int     `json:"resend"` // >0: re-encode the input of batch (k - resend) instead of generating
+	Stats    bool    `json:"stats"`  // call the public Producer.GetAndResetStats() before this batch
 }
 
 type Stream struct {
@@ -541,6 +542,12 @@ func RunStreamCapture(em *Emitter, tr int, st *Stream, capt *Capture) {
 			sig = "metrics"
 		}
 		inputs = append(inputs, in)
+		if bs.Stats {
+			func() {
+				defer func() { _ = recover() }()
+				_ = p.GetAndResetStats()
+			}()
+		}
 		before := marshal(in)
 		var inNodes []*Node
 		if !bs.NoDump {
